@@ -139,10 +139,14 @@ class Model:
         if isinstance(v, SVar):
             return v
         if isinstance(v, bool | int | float):
-            return SVar(Rat.const(v) if not isinstance(v, bool) else Rat.const(int(v)),
-                        DIMENSIONLESS, py_dtype(v))
+            r = SVar(Rat.const(v) if not isinstance(v, bool) else Rat.const(int(v)),
+                     DIMENSIONLESS, py_dtype(v))
+            r.kind = 'pyfloat'
+            return r
         if isinstance(v, F):
-            return SVar(Rat.const(v), DIMENSIONLESS, 'float64')
+            r = SVar(Rat.const(v), DIMENSIONLESS, 'float64')
+            r.kind = 'pyfloat'
+            return r
         if isinstance(v, Opaque):
             return SVar(None, None, None, why=v.why)
         raise AnalysisError(f'cannot lift {v!r} to a scipp value')
@@ -310,6 +314,8 @@ class Model:
             a.taint = taint
             return self.hist(a, op, old, b) if unit_only is None else a
         r = self.new(interp, term, unit, dtype, taint=taint, why=why)
+        if a.kind == 'pyfloat' and b.kind == 'pyfloat':
+            r.kind = 'pyfloat'
         if unit_only is not None:
             r.hist = (a if unit_only == 1 else b).hist
             return r
@@ -747,7 +753,19 @@ class Model:
             return self.new(interp, t, unit, dtype)
         return self.new(interp, None, unit, dtype, taint, 'array from python data')
 
-    sc_zeros = sc_ones = sc_empty = sc_full = lambda self, interp, args, kwargs, node: self.new(  # noqa: E731
+    def sc_full(self, interp, args, kwargs, node):
+        unit = self._unit_arg(interp, kwargs.get('unit', _DEFAULT_UNIT), node)
+        val = kwargs.get('value')
+        dtype = norm_dtype(kwargs.get('dtype'))
+        if isinstance(val, SVar) and isinstance(val.term, Rat) and unit is not None:
+            if val.kind == 'raw':
+                interp.event('raw-relabel', node, unit=repr(unit), stmt=_text(node))
+            return self.new(interp, val.term * unit.scale(), unit, dtype or val.dtype, val.taint)
+        if isinstance(val, int | float) and unit is not None:
+            return self.new(interp, Rat.const(val) * unit.scale(), unit, dtype or py_dtype(val))
+        return self.new(interp, None, unit, dtype or 'float64', why='filled array')
+
+    sc_zeros = sc_ones = sc_empty = lambda self, interp, args, kwargs, node: self.new(  # noqa: E731
         interp, None, self._unit_arg(interp, kwargs.get('unit', _DEFAULT_UNIT), node),
         norm_dtype(kwargs.get('dtype')) or 'float64', why='filled array')
 
